@@ -131,6 +131,13 @@ pub fn random_transport(rng: &mut Rng) -> (TransportConfig, [u32; 2]) {
     if rng.chance(1, 5) {
         t.enable_segmentation_offload(false);
     }
+    // further knobs come from a fork of the generator: the main stream of random choices stays what it was, so
+    // the raw seeds recorded in known_findings.txt and the corpus keep replaying the same executions
+    let mut r2 = Rng(rng.0 ^ 0x5eed_c0de_0bad_f00d);
+    if r2.chance(1, 5) {
+        // padded datagrams (also padded loss probes: a STREAM frame without length field must not swallow the padding)
+        t.pad_to_mtu(true);
+    }
     (t, lim)
 }
 
